@@ -69,7 +69,11 @@ impl Semaphore {
     /// Otherwise, this returns a [`SemaphorePermit`] representing the
     /// acquired permits.
     pub async fn acquire_many(&self, permits: u32) -> Result<SemaphorePermit<'_>, AcquireError> {
-        self.sem.acquire(permits as usize).await?;
+        // As in tokio, a request for zero permits is granted at once unless the semaphore is closed
+        // (`BatchSemaphore` itself does not accept empty requests).
+        if permits > 0 || self.sem.is_closed() {
+            self.sem.acquire(permits.max(1) as usize).await?;
+        }
         Ok(SemaphorePermit { sem: self, permits })
     }
 
@@ -88,7 +92,11 @@ impl Semaphore {
     /// and a [`TryAcquireError::NoPermits`] if there are not enough permits left.
     /// Otherwise, this returns a [`SemaphorePermit`] representing the acquired permits.
     pub fn try_acquire_many(&self, permits: u32) -> Result<SemaphorePermit<'_>, TryAcquireError> {
-        match self.sem.try_acquire(permits as usize) {
+        // See `acquire_many`
+        if permits == 0 && !self.sem.is_closed() {
+            return Ok(SemaphorePermit { sem: self, permits });
+        }
+        match self.sem.try_acquire(permits.max(1) as usize) {
             Ok(()) => Ok(SemaphorePermit { sem: self, permits }),
             Err(e) => Err(e),
         }
@@ -111,7 +119,10 @@ impl Semaphore {
     /// Otherwise, this returns a [`OwnedSemaphorePermit`] representing the
     /// acquired permit.
     pub async fn acquire_many_owned(self: Arc<Self>, permits: u32) -> Result<OwnedSemaphorePermit, AcquireError> {
-        self.sem.acquire(permits as usize).await?;
+        // See `acquire_many`
+        if permits > 0 || self.sem.is_closed() {
+            self.sem.acquire(permits.max(1) as usize).await?;
+        }
         Ok(OwnedSemaphorePermit { sem: self, permits })
     }
 
@@ -134,7 +145,11 @@ impl Semaphore {
     /// Otherwise, this returns a [`OwnedSemaphorePermit`] representing the
     /// acquired permit.
     pub fn try_acquire_many_owned(self: Arc<Self>, permits: u32) -> Result<OwnedSemaphorePermit, TryAcquireError> {
-        match self.sem.try_acquire(permits as usize) {
+        // See `acquire_many`
+        if permits == 0 && !self.sem.is_closed() {
+            return Ok(OwnedSemaphorePermit { sem: self, permits });
+        }
+        match self.sem.try_acquire(permits.max(1) as usize) {
             Ok(()) => Ok(OwnedSemaphorePermit { sem: self, permits }),
             Err(e) => Err(e),
         }
